@@ -136,27 +136,27 @@ Lemma post_weaken {A} (Q Q' : A -> state -> Prop) o o' r :
   post Q o r -> o' <= o ->
   (forall a s', Inv s' -> o <= off s' -> Q a s' -> Q' a s') ->
   post Q' o' r.
-Proof.
+Proof using All.
   intros H Ho HQ. destruct r as [a s'|e s'|]; simpl in *; [|destruct H; split; [lia|assumption]|assumption].
   destruct H as (Hi & Hle & Hq). split; [assumption|split; [lia|now apply HQ]].
 Qed.
 
 Lemma post_ok {A} (Q : A -> state -> Prop) o a s' :
   Inv s' -> o <= off s' -> Q a s' -> post Q o (Ok a s').
-Proof. intros. simpl. auto. Qed.
+Proof using All. intros. simpl. auto. Qed.
 
 Lemma post_err {A} (Q : A -> state -> Prop) o e s' :
   o <= off s' <= len -> errs_ok e -> post Q o (Err e s').
-Proof. intros. simpl. auto. Qed.
+Proof using All. intros. simpl. auto. Qed.
 
 Lemma errs_ok_cons k a b e : 0 <= a <= b -> b <= len -> errs_ok e -> errs_ok (mkErr k a b :: e).
-Proof. intros. constructor; [unfold err_ok; simpl; lia|assumption]. Qed.
+Proof using All. intros. constructor; [unfold err_ok; simpl; lia|assumption]. Qed.
 
 Lemma errs_ok_one k a b : 0 <= a <= b -> b <= len -> errs_ok [mkErr k a b].
-Proof. intros. apply errs_ok_cons; try assumption. constructor. Qed.
+Proof using All. intros. apply errs_ok_cons; try assumption. constructor. Qed.
 
 Lemma rest_length s : Inv s -> Z.of_nat (length (rest s)) = len - off s.
-Proof.
+Proof using All.
   intros (H0 & Hr & Hd). rewrite Hr, skipn_length.
   assert (off s <= len) by (destruct Hd as [(_ & _ & ?)|(? & _)]; lia). lia.
 Qed.
@@ -166,7 +166,7 @@ Lemma inv_facts s : Inv s ->
   0 <= off s /\ 0 <= clen s /\ off s + clen s <= len /\
   (cur s = eof -> clen s = 0 /\ off s = len) /\
   (cur s <> eof -> 1 <= clen s /\ 0 <= cur s /\ off s < len /\ (cur s, clen s) = dec (rest s)).
-Proof.
+Proof using All.
   intros HI. pose proof (rest_length s HI) as HL. destruct HI as (H0 & Hr & [(Hc & Hw & Ho)|(Ho & Hd)]).
   - repeat split; try lia; intros; try lia; congruence.
   - assert (Hne : rest s <> []) by (intros Hn; rewrite Hn in HL; simpl in HL; lia).
@@ -176,13 +176,13 @@ Proof.
 Qed.
 
 Lemma inv_eof_len s : Inv s -> cur s = eof -> off s = len.
-Proof. intros HI Hc. apply inv_facts in HI. tauto. Qed.
+Proof using All. intros HI Hc. apply inv_facts in HI. tauto. Qed.
 
 (* one decoded rune: either an ASCII byte or bytes that are all >= 0x80 *)
 Lemma dec_cases l r w : l <> [] -> dec l = (r, w) ->
   (exists b l', l = b :: l' /\ 0 <= b < 128 /\ r = b /\ w = 1) \/
   (128 <= r /\ Forall high (firstn (Z.to_nat w) l)).
-Proof.
+Proof using All.
   intros Hl H. destruct l as [|b l']; [congruence|].
   destruct (Z_le_dec 0 b) as [H0|H0]; [destruct (Z_lt_dec b 128) as [H1|H1]|].
   - left. exists b, l'. rewrite (dec_ascii _ Hdec b l') in H by lia. inversion H. repeat split; lia.
@@ -193,7 +193,7 @@ Qed.
 (* the current rune is the ASCII character c: exactly that byte is at the offset *)
 Lemma cur_ascii s c : Inv s -> cur s = c -> 0 <= c < 128 ->
   clen s = 1 /\ slice t (off s) (off s + 1) = [c].
-Proof.
+Proof using All.
   intros HI Hc Hr. pose proof (rest_length s HI) as HL.
   pose proof (inv_facts s HI) as (H0 & _ & _ & _ & Hn).
   destruct Hn as (Hw & _ & Ho & Hd); [unfold eof; lia|].
@@ -206,18 +206,18 @@ Qed.
 (* ------------------------------------------------------------------ Advance *)
 
 Lemma inv_eof_state o r : o = len -> r = skipn (Z.to_nat o) t -> Inv (mkState o eof 0 r).
-Proof. intros Ho Hr. unfold Inv; simpl. split; [lia|]. split; [assumption|]. left. auto. Qed.
+Proof using All. intros Ho Hr. unfold Inv; simpl. split; [lia|]. split; [assumption|]. left. auto. Qed.
 
 Lemma inv_dec_state o c w r :
   0 <= o < len -> r = skipn (Z.to_nat o) t -> dec r = (c, w) -> Inv (mkState o c w r).
-Proof.
+Proof using All.
   intros Ho Hr Hd. unfold Inv; simpl. split; [lia|]. split; [assumption|]. right.
   split; [lia|now symmetry].
 Qed.
 
 Lemma advance_spec s : Inv s ->
   post (fun _ s' => off s' = off s + clen s /\ cur s <> eof /\ off s < off s') (off s) (advance E s).
-Proof.
+Proof using All.
   intros HI. pose proof (inv_facts s HI) as (H0 & Hw0 & Hle & Heof & Hne).
   pose proof HI as (_ & Hrest & _).
   unfold advance.
@@ -255,7 +255,7 @@ Qed.
 (* the first Advance of syntax.ParseFile, from scanner.New's state *)
 Lemma advance_init :
   post (fun _ s' => off s' = 0) 0 (advance E (init_state E)).
-Proof.
+Proof using All.
   unfold advance, init_state. cbn [off clen cur rest]. simpl skipn. rewrite Z.add_0_l.
   destruct (Z.eqb_spec 0 len) as [He|He].
   - cbn [andb negb Z.eqb eof]. apply post_ok; simpl; try lia. apply inv_eof_state; [lia|reflexivity].
@@ -273,7 +273,7 @@ Qed.
 
 (* Backtrack to the offset of a state that is not at EOF restores that state *)
 Lemma backtrack_id s : Inv s -> cur s <> eof -> backtrack E (off s) = s.
-Proof.
+Proof using All.
   intros HI Hc. pose proof (inv_facts s HI) as (_ & _ & _ & _ & Hne).
   destruct (Hne Hc) as (_ & _ & _ & Hd). destruct HI as (_ & Hrest & _).
   unfold backtrack. rewrite <- Hrest, <- Hd. destruct s; reflexivity.
@@ -286,11 +286,11 @@ Definition rune_bytes (p : Z -> bool) (P : Z -> Prop) : Prop :=
   forall l r w, l <> [] -> dec l = (r, w) -> p r = true -> Forall P (firstn (Z.to_nat w) l).
 
 Lemma rune_bytes_true p : rune_bytes p (fun _ => True).
-Proof. intros l r w _ _ _. apply Forall_forall. auto. Qed.
+Proof using All. intros l r w _ _ _. apply Forall_forall. auto. Qed.
 
 Lemma advance_bytes s p P : Inv s -> rune_bytes p P -> cur s <> eof -> p (cur s) = true ->
   Forall P (slice t (off s) (off s + clen s)).
-Proof.
+Proof using All.
   intros HI HP Hc Hp. pose proof (rest_length s HI) as HL.
   pose proof (inv_facts s HI) as (_ & _ & _ & _ & Hne).
   destruct (Hne Hc) as (Hw & _ & Ho & Hd). destruct HI as (_ & Hrest & _).
@@ -305,7 +305,7 @@ Lemma read_while_loop_spec p P start : rune_bytes p P ->
   post (fun r s' => r = mkRange start (off s') /\ Forall P (slice t start (off s')) /\
                     (p (cur s') = false \/ cur s' = eof))
        (off s) (read_while_loop E p start n s).
-Proof.
+Proof using All.
   intros HP. induction n as [|n IH]; intros s HI Hst Hn Hacc.
   - pose proof (inv_facts s HI). lia.
   - cbn [read_while_loop]. destruct (p (cur s)) eqn:Hp; cbn [andb].
@@ -327,7 +327,7 @@ Lemma read_while_spec p P s : rune_bytes p P -> Inv s ->
   post (fun r s' => r = mkRange (off s) (off s') /\ Forall P (slice t (off s) (off s')) /\
                     (p (cur s') = false \/ cur s' = eof))
        (off s) (read_while E p s).
-Proof.
+Proof using All.
   intros HP HI. pose proof (inv_facts s HI). unfold read_while.
   apply read_while_loop_spec; try assumption; try lia.
   rewrite slice_nil. constructor.
@@ -337,7 +337,7 @@ Lemma read_while1_spec p P s : rune_bytes p P -> Inv s ->
   post (fun r s' => r = mkRange (off s) (off s') /\ Forall P (slice t (off s) (off s')) /\
                     off s < off s')
        (off s) (read_while1 E p s).
-Proof.
+Proof using All.
   intros HP HI. pose proof (inv_facts s HI) as (H0 & Hcl0 & Hle & _ & _). unfold read_while1.
   destruct (Z.eqb_spec (cur s) eof) as [Hc|Hc].
   { apply post_err; [lia|]. apply errs_ok_one; lia. }
@@ -366,7 +366,7 @@ Lemma read_character_with_spec p s : Inv s ->
   post (fun r s' => r = mkRange (off s) (off s') /\ off s' = off s + clen s /\ off s < off s' /\
                     p (cur s) = true /\ cur s <> eof)
        (off s) (read_character_with E p s).
-Proof.
+Proof using All.
   intros HI. pose proof (inv_facts s HI) as (H0 & Hcl0 & Hle & _ & _). unfold read_character_with.
   destruct (Z.eqb_spec (cur s) eof) as [Hc|Hc].
   { apply post_err; [lia|]. apply errs_ok_one; lia. }
@@ -385,7 +385,7 @@ Lemma read_character_spec c s : Inv s -> 0 <= c < 128 ->
   post (fun r s' => r = mkRange (off s) (off s') /\ off s' = off s + 1 /\
                     slice t (off s) (off s') = [c])
        (off s) (read_character E c s).
-Proof.
+Proof using All.
   intros HI Hc. unfold read_character.
   eapply post_weaken; [apply (read_character_with_spec _ s HI)|lia|].
   intros r s' _ _ (Hr & Ho & _ & Hp & _). apply Z.eqb_eq in Hp.
@@ -402,7 +402,7 @@ Lemma read_string_loop_spec str : Forall ascii str ->
   post (fun r s' => r = mkRange start (off s') /\ off s' = off s + Z.of_nat (length str) /\
                     slice t (off s) (off s') = str)
        (off s) (read_string_loop E str start s).
-Proof.
+Proof using All.
   induction 1 as [|c str Hc Hstr IH]; intros start s HI Hst.
   - cbn [read_string_loop length]. apply post_ok; [assumption|lia|].
     rewrite Z.add_0_r, slice_nil. repeat split; lia.
@@ -426,7 +426,7 @@ Lemma read_string_spec str s : Forall ascii str -> Inv s ->
   post (fun r s' => r = mkRange (off s) (off s') /\ off s' = off s + Z.of_nat (length str) /\
                     slice t (off s) (off s') = str)
        (off s) (read_string E str s).
-Proof.
+Proof using All.
   intros Hs HI. pose proof (inv_facts s HI). unfold read_string.
   apply read_string_loop_spec; try assumption; lia.
 Qed.
@@ -435,7 +435,7 @@ Lemma read_alternative_loop_spec ss s : Forall (Forall ascii) ss -> Inv s -> cur
   post (fun r s' => r = mkRange (off s) (off s') /\ In (slice t (off s) (off s')) ss /\
                     off s' = off s + Z.of_nat (length (slice t (off s) (off s'))))
        (off s) (read_alternative_loop E ss (off s) s).
-Proof.
+Proof using All.
   intros Hss HI Hc. pose proof (inv_facts s HI) as (H0 & Hcl0 & Hle & _ & _).
   induction Hss as [|str ss Hstr Hss IH].
   - cbn [read_alternative_loop]. apply post_err; [lia|]. apply errs_ok_one; lia.
@@ -454,7 +454,7 @@ Lemma read_alternative_spec ss s : Forall (Forall ascii) ss -> Inv s ->
   post (fun r s' => r = mkRange (off s) (off s') /\ In (slice t (off s) (off s')) ss /\
                     off s' = off s + Z.of_nat (length (slice t (off s) (off s'))))
        (off s) (read_alternative E ss s).
-Proof.
+Proof using All.
   intros Hss HI. pose proof (inv_facts s HI) as (H0 & Hcl0 & Hle & _ & _). unfold read_alternative.
   destruct (Z.eqb_spec (cur s) eof) as [Hc|Hc].
   - apply post_err; [lia|]. apply errs_ok_one; lia.
@@ -466,7 +466,7 @@ Qed.
 
 Lemma read_n_loop_spec n : forall start s, Inv s -> 0 <= start <= off s ->
   post (fun r s' => r = mkRange start (off s')) (off s) (read_n_loop E n start s).
-Proof.
+Proof using All.
   induction n as [|n IH]; intros start s HI Hst;
     pose proof (inv_facts s HI) as (H0 & Hcl0 & Hle & _ & _).
   - cbn [read_n_loop]. apply post_ok; [assumption|lia|reflexivity].
@@ -483,7 +483,7 @@ Qed.
 Lemma read_until_loop_spec p start : forall n s, Inv s -> 0 <= start <= off s ->
   len - off s + 1 < Z.of_nat n ->
   post (fun r s' => r = mkRange start (off s')) (off s) (read_until_loop E p start n s).
-Proof.
+Proof using All.
   induction n as [|n IH]; intros s HI Hst Hn;
     pose proof (inv_facts s HI) as (H0 & Hcl0 & Hle & _ & _); [lia|].
   cbn [read_until_loop]. destruct (p (cur s)); cbn [negb].
